@@ -221,7 +221,16 @@ class Scheduler:
                 t.sem.release()
                 if not self.main_sem.acquire(timeout=WATCHDOG_S):
                     raise HarnessTimeout(f'thread {name} did not yield within {WATCHDOG_S}s')
+                if t.state == 'done' and t.thread is not None:
+                    # a finished thread is joined and forgotten, like a worker whose Thread
+                    # object the application no longer holds
+                    t.thread.join(timeout=5)
+                    t.thread = None
+                    import gc as _gc
+
+                    _gc.collect()
         finally:
             CURRENT = None
         for t in self.threads.values():
-            t.thread.join(timeout=5)
+            if t.thread is not None:
+                t.thread.join(timeout=5)
